@@ -11,7 +11,6 @@ import (
 
 func init() {
 	verifHarnesses["HarnessC09ConnState"] = HarnessC09ConnState
-	verifHarnesses["HarnessC09Dispatch"] = HarnessC09Dispatch
 	verifHarnesses["HarnessC09Epoch"] = HarnessC09Epoch
 }
 
@@ -67,67 +66,13 @@ func HarnessC09ConnState(a []int) {
 	verifObserve("frames", len(sock.log))
 }
 
-// HarnessC09Dispatch: a = {message kind}: the real process() goroutine receives one frame with a
-// symbolic channel: 0 disconnect request, 1 disconnect response, 2 connection-state response,
-// 3 tunnelling acknowledgement, 4 connect response (stray), 5 routing indication (stray).
-func HarnessC09Dispatch(a []int) {
-	sock := newVSock()
-	conn := vTunnel(sock, false)
-	c := nondetU8()
-	conn.channel = c
-	ch := nondetU8()
-	finished := make(chan error, 1)
-	go func() { finished <- conn.process() }()
-	var msg knxnet.Service
-	switch a[0] {
-	case 0:
-		msg = &knxnet.DiscReq{Channel: ch, Status: nondetU8()}
-	case 1:
-		msg = &knxnet.DiscRes{Channel: ch, Status: nondetU8()}
-	case 2:
-		msg = &knxnet.ConnStateRes{Channel: ch, Status: knxnet.ErrCode(nondetU8())}
-	case 3:
-		msg = &knxnet.TunnelRes{Channel: ch, SeqNumber: nondetU8(), Status: knxnet.ErrCode(nondetU8())}
-	case 4:
-		msg = &knxnet.ConnRes{Channel: ch, Status: knxnet.ErrCode(nondetU8())}
-	default:
-		msg = &knxnet.RoutingInd{Payload: c04Msgs[0]}
-	}
-	sock.in <- msg
-	verifSleep(int64(10 * time.Second)) // lets relay goroutines give up
-	verifQuiesce()
-	ended := false
-	var err error
-	select {
-	case err = <-finished:
-		ended = true
-	default:
-	}
-	own := ch == c
-	switch {
-	case a[0] == 0 && own:
-		verifCover("C09.dispatch.disconnect_request")
-		verifAssert("C09.dispatch.discreq_ends_epoch", ended && err == errDisconnected)
-		verifAssert("C09.dispatch.discreq_answered", len(sock.log) == 1)
-		r, ok := sock.log[0].(*knxnet.DiscRes)
-		verifAssert("C09.dispatch.discres_fields", ok && r.Channel == c && r.Status == 0)
-	case a[0] == 1 && own:
-		verifCover("C09.dispatch.disconnect_response")
-		verifAssert("C09.dispatch.discres_terminates", ended && err == nil && len(sock.log) == 0)
-	default:
-		verifCover("C09.dispatch.ignored")
-		verifAssert("C09.dispatch.foreign_ignored", !ended && len(sock.log) == 0)
-	}
-	close(conn.done)
-	verifObserve("ended", ended)
-}
-
 // HarnessC09Epoch: a = {heartbeat interval in s (3 < timeout 5 < 7), heartbeat behaviour, reconnect
 // behaviour}. The real serve() goroutine against a gateway goroutine.
-//   heartbeat: 0 answered OK, 1 silence, 2 error status (symbolic, non-zero), 3 answer for a foreign
-//              channel only, 4 disconnect request for the current channel instead, 5 the first one
-//              answered twice and none afterwards
-//   reconnect: 0 accepted (new channel symbolic), 1 busy then accepted, 2 refused, 3 silence
+//
+//	heartbeat: 0 answered OK, 1 silence, 2 error status (symbolic, non-zero), 3 answer for a foreign
+//	           channel only, 4 disconnect request for the current channel instead, 5 the first one
+//	           answered twice and none afterwards
+//	reconnect: 0 accepted (new channel symbolic), 1 busy then accepted, 2 refused, 3 silence
 func HarnessC09Epoch(a []int) {
 	hbSec, hbMode, rcMode := a[0], a[1], a[2]
 	sock := newVSock()
@@ -145,7 +90,7 @@ func HarnessC09Epoch(a []int) {
 	hbAnswered := false
 	busySent := false
 	epoch2 := false // the gateway has accepted a reconnect (the new channel may equal the old one)
-	go func() { // gateway
+	go func() {     // gateway
 		verifDaemon()
 		for f := range frames {
 			switch r := f.(type) {
@@ -283,34 +228,13 @@ func HarnessC09Epoch(a []int) {
 	}
 	verifObserve("reconnects", reconnects)
 }
+
 var _ cemi.Message
 
 func init() {
 	verifHarnesses["HarnessC09Parked"] = HarnessC09Parked
 	verifHarnesses["HarnessC09SendAcross"] = HarnessC09SendAcross
 	verifHarnesses["HarnessC09Traffic"] = HarnessC09Traffic
-}
-
-// c09Gateway answers connect requests with the given channel, heartbeats with OK and (optionally)
-// tunnelling requests with an acknowledgement.
-func c09Gateway(sock *vSock, newCh uint8, ackTunnel bool) {
-	frames := make(chan knxnet.ServicePackable, 64)
-	sock.onSend = func(p knxnet.ServicePackable) { frames <- p }
-	go func() {
-		verifDaemon()
-		for f := range frames {
-			switch r := f.(type) {
-			case *knxnet.ConnStateReq:
-				sock.in <- &knxnet.ConnStateRes{Channel: r.Channel, Status: 0}
-			case *knxnet.ConnReq:
-				sock.in <- &knxnet.ConnRes{Channel: newCh, Status: 0}
-			case *knxnet.TunnelReq:
-				if ackTunnel {
-					sock.in <- &knxnet.TunnelRes{Channel: r.Channel, SeqNumber: r.SeqNumber, Status: 0}
-				}
-			}
-		}
-	}()
 }
 
 // HarnessC09Parked: telegrams accepted (and acknowledged) while the application is not reading
